@@ -22,6 +22,7 @@ From Coq Require Import List ZArith NArith String Bool.
 From SCC Require Import Base.Sexp Lang.AxSyn Lang.FunSyn Lang.CoreSyn Sem.AxSem Sem.CoreSem Sem.FunSem Sem.X86Sem
      Model.Backend Model.Fun2Core Model.Focus Model.FocusCheck Model.Shrink Model.Linearize Model.LinCheck Model.X86 Model.Runtime
      Proof.Compose Proof.ComposeFocus Proof.FocusFrag Proof.UqAeq.
+From SCC Require Import Model.FocusGuard.
 Import ListNotations.
 Open Scope Z_scope.
 
